@@ -18,6 +18,7 @@ import (
 	"os/exec"
 	"strconv"
 	"strings"
+	"syscall"
 	"time"
 
 	"github.com/vimeo/dials"
@@ -54,9 +55,13 @@ func refChildMain(vals []string) {
 	for len(vals) < 4 {
 		vals = append(vals, "")
 	}
+	// a source that slurps a device or a huge file must not take the machine down with it
+	_ = syscall.Setrlimit(syscall.RLIMIT_AS, &syscall.Rlimit{Cur: 3 << 30, Max: 3 << 30})
 	ctx := context.Background()
 	fmt.Println("STAGE env")
 	_, _ = dials.Config(ctx, &refCfg{}, &env.Source{})
+	fmt.Println("STAGE env with prefix")
+	_, _ = dials.Config(ctx, &refCfg{}, &env.Source{Prefix: "APP"})
 	fmt.Println("STAGE flag")
 	args := []string{"-host=" + vals[0], "-name=" + vals[1], "-alias=" + vals[2], "-target=" + vals[3]}
 	if set, err := flag.NewSetWithArgs(flag.DefaultFlagNameConfig(), &refCfg{}, args); err == nil {
@@ -74,7 +79,9 @@ func refChildMain(vals []string) {
 
 var childHangs int
 
-func runRefs(in input) driver.Result {
+func runRefs(in input) driver.Result { return runRefsWith(in, nil, "reference-shaped-values", "refs") }
+
+func runRefsWith(in input, extraEnv []string, kind, tagp string) driver.Result {
 	if childHangs >= 3 {
 		return driver.Result{Coq: "Fuzz 0", Kind: "skipped-after-hang"}
 	}
@@ -97,6 +104,7 @@ func runRefs(in input) driver.Result {
 			vals[i] = ""
 		}
 	}
+	envp = append(envp, extraEnv...)
 	ctx, cancel := context.WithTimeout(context.Background(), refDeadline)
 	defer cancel()
 	cmd := exec.CommandContext(ctx, exe, append([]string{"refchild"}, vals...)...)
@@ -114,27 +122,27 @@ func runRefs(in input) driver.Result {
 	}
 	show := strconv.QuoteToASCII(strings.Join(envp[2:], " "))
 	var direct []string
-	verdict, tag := 0, "refs-returned"
+	verdict, tag := 0, tagp+"-returned"
 	switch {
 	case strings.Contains(outS, "RESULT returned"):
 	case strings.Contains(outS, "RESULT panicked"):
-		verdict, tag = 1, "refs-panicked"
+		verdict, tag = 1, tagp+"-panicked"
 		line := outS[strings.Index(outS, "RESULT panicked"):]
-		direct = append(direct, fmt.Sprintf("sources on reference-shaped values %s (stage %s): %s", show, stage, strings.SplitN(line, "\n", 2)[0]))
+		direct = append(direct, fmt.Sprintf("sources on environment %s (stage %s): %s", show, stage, strings.SplitN(line, "\n", 2)[0]))
 	case ctx.Err() != nil:
 		childHangs++
-		verdict, tag = 1, "refs-hung"
-		direct = append(direct, fmt.Sprintf("sources on reference-shaped values %s: no return within %v in stage %q (the child had to be killed): does not terminate",
+		verdict, tag = 1, tagp+"-hung"
+		direct = append(direct, fmt.Sprintf("sources on environment %s: no return within %v in stage %q (the child had to be killed): does not terminate",
 			show, refDeadline, stage))
 	default:
-		verdict, tag = 1, "refs-died"
+		verdict, tag = 1, tagp+"-died"
 		tail := outS
 		if len(tail) > 300 {
 			tail = tail[len(tail)-300:]
 		}
-		direct = append(direct, fmt.Sprintf("sources on reference-shaped values %s: the child died in stage %q (%v): %s", show, stage, runErr, tail))
+		direct = append(direct, fmt.Sprintf("sources on environment %s: the child died in stage %q (%v): %s", show, stage, runErr, tail))
 	}
-	return driver.Result{Coq: fmt.Sprintf("Fuzz %d", verdict), Kind: "reference-shaped-values", Tags: []string{tag, "refs-" + in.T},
+	return driver.Result{Coq: fmt.Sprintf("Fuzz %d", verdict), Kind: kind, Tags: []string{tag, tagp + "-" + in.T},
 		Nontrivial: true, Direct: direct}
 }
 
